@@ -24,8 +24,8 @@ def _mk(pos, neg, ep, en, sc, ec, dt=float):
 
 
 @st.composite
-def _cases(draw):
-    s = draw(gen.score_sets(max_size=9, modes=("grid", "grid", "dyadic", "int", "float", "distinct"),
+def _cases(draw, max_size=9):
+    s = draw(gen.score_sets(max_size=max_size, modes=("grid", "grid", "dyadic", "int", "float", "distinct"),
                             mag=1e6))
     thr = draw(gen.shaped_thresholds(s["pos"] + s["neg"], shapes=[(), (3,), (2, 2), (5,), (0,)],
                                      mag=1e6))
@@ -196,9 +196,9 @@ PROP = Prop(
           "equal AUC, and for tie-free inputs equal EER. Non-trivial = both classes non-empty, "
           "score set not symmetric about 0, map not the identity."),
     clauses=[
-        Clause("symmetries", check, strategy=_cases(), quick=250, thorough=1200, quick_shards=4,
+        Clause("symmetries", check, strategy=lambda tier: _cases(9 if tier == "quick" else 25), quick=250, thorough=7200, quick_shards=4,
                min_nontrivial=100, doc="swap / negation / affine metamorphic pairs"),
-        Clause("group_swap", check_group, strategy=_group_cases(), quick=200, thorough=800,
+        Clause("group_swap", check_group, strategy=_group_cases(), quick=200, thorough=4800,
                shards=4, min_nontrivial=20, doc="GroupScores.swap()"),
     ],
     assumptions=["threshold equivariance under negation only for method='linear'",
